@@ -139,6 +139,19 @@ type c07Context struct {
 
 var c07SmallContexts = []c07Context{{1, 0, false}, {1, 0, true}, {3, 2, false}, {3, 2, true}, {8, 0, true}, {8, 2, false}, {1, 2, true}, {3, 0, false}}
 
+// c07DistinctWords (contexts=distinct): the prefix consists of pairwise different words.
+var c07DistinctWords bool
+
+// vDistinctOOV: zqd + five letters, a different word for every i < 26^5.
+func vDistinctOOV(i int) string {
+	b := []byte("zqdaaaaa")
+	for k := 7; k >= 3; k-- {
+		b[k] = byte('a' + i%26)
+		i /= 26
+	}
+	return string(b)
+}
+
 func oovWords(n, salt int) string {
 	var w []string
 	for i := 0; i < n; i++ {
@@ -154,7 +167,24 @@ func (cx c07Context) embed(x []byte) (in []byte, dTok, dLine int) {
 		sep = "\n"
 		dLine = 1
 	}
-	s := oovWords(cx.preWords, 0) + sep + string(x)
+	pre := oovWords(cx.preWords, 0)
+	if c07DistinctWords {
+		// every word of the prefix is a different spelling, in lines of 12 words
+		var sb strings.Builder
+		for i := 0; i < cx.preWords; i++ {
+			if i > 0 {
+				if i%12 == 0 {
+					sb.WriteByte('\n')
+					dLine++
+				} else {
+					sb.WriteByte(' ')
+				}
+			}
+			sb.WriteString(vDistinctOOV(i))
+		}
+		pre = sb.String()
+	}
+	s := pre + sep + string(x)
 	if cx.postWords > 0 {
 		s += sep + oovWords(cx.postWords, 50)
 	}
@@ -301,6 +331,26 @@ func corpusScale(c *vrep.Ctx, prop string) {
 		for _, b := range []int{512, 1024, 2048, 4096, 8192} {
 			for d := -3; d <= 1; d++ {
 				contexts = append(contexts, c07Context{b + d, 40, true})
+			}
+		}
+	}
+	if c.Param("contexts", "") == "distinct" {
+		// prefixes of pairwise different words whose number lies just below / above the powers of two
+		// 2^12..2^17 (sizes of tables, caches and narrow integer types keyed by word or position)
+		c07DistinctWords = true
+		for w := range cl.dict.indices {
+			if strings.HasPrefix(w, "zqd") {
+				panic("a dictionary word looks like a generated prefix word: " + w)
+			}
+		}
+		contexts = nil
+		bs := []int{4096, 32768, 65536}
+		if c.Thorough() {
+			bs = []int{4096, 16384, 32768, 65536, 131072}
+		}
+		for _, b := range bs {
+			for _, d := range []int{-40, -7, -1, 3} {
+				contexts = append(contexts, c07Context{b + d, 20, true})
 			}
 		}
 	}
